@@ -208,6 +208,14 @@ func c14Run(c *Ctx) {
 	r := c.R
 	mode := c.K % 4
 	d := GenDecl(c.Sub("d"), c14Cfg())
+	if inHistTail(c, 40000, 1600000) {
+		// one IniParser used for two reads while the program changes the model in between
+		c.Case(func() interface{} { return map[string]interface{}{"declaration_after_the_change": d.Describe()} })
+		if hl := histIniReuse(c, d); hl != "" && !c.Violated() {
+			c.Held("history/ini-reuse/"+hl, fmt.Sprintf("opts=%d", minInt(len(d.Opts), 30)))
+		}
+		return
+	}
 	if mode == 0 {
 		c14Arbitrary(c, d)
 		return
@@ -636,11 +644,11 @@ func init() {
 		Cases: func(tier string) int64 {
 			switch tier {
 			case "thorough":
-				return 1600000
+				return 1600000 + 133333 // + history cases
 			case "race":
 				return 0
 			}
-			return 40000
+			return 40000 + 3333 // + history cases
 		},
 		Run:              c14Run,
 		MinNontrivial:    300,
